@@ -56,7 +56,67 @@ def _dump(payload, sub):
         kw['updated_column'] = op['updated_column']
     d = DF.dump_to_sql({'tbl': tcfg}, engine='sqlite:///' + os.path.abspath('db.sqlite'), batch_size=op.get('batch_size', 1000),
                        use_bloom_filter=op.get('bloom', True), **kw)
-    ds = DF.Flow(DF.load((desc, [iter(rows)]), strip=False), d).datastream()
+    extra = {}
+    if op.get('fail_first') is not None:
+        # the same Flow object (hence the same dumper instance) is run twice: the first attempt dies at row j of its
+        # source, the retry gets the whole stream
+        import copy
+        import gc
+
+        class Boom(Exception):
+            pass
+
+        class Src:
+            # an iterator that starts over after it ended (or died): what a re-run of the same Flow object pulls from
+            runs = 0
+            g = None
+
+            def __iter__(self):
+                return self
+
+            def __next__(self):
+                if self.g is None:
+                    Src.runs += 1
+                    self.g = self.gen(Src.runs == 1)
+                try:
+                    return next(self.g)
+                except BaseException:
+                    self.g = None
+                    raise
+
+            def gen(self, first):
+                for i, row in enumerate(rows):
+                    if first and i == op['fail_first']:
+                        sub.fault('source-raise')
+                        e = Boom('source row %d' % i)
+                        e._dfsim_marker = 'source-raise'
+                        raise e
+                    yield copy.deepcopy(row)
+                if first and op['fail_first'] >= len(rows):
+                    sub.fault('source-raise')
+                    e = Boom('source exhaustion')
+                    e._dfsim_marker = 'source-raise'
+                    raise e
+        flow = DF.Flow(DF.load((desc, [Src()]), strip=False), d)
+        ds = None
+        try:
+            ds = flow.datastream()
+            for r in ds.res_iter:
+                for _ in r:
+                    pass
+            extra['first_failed'] = False
+        except Exception as e:  # noqa
+            c = e
+            while c is not None and not getattr(c, '_dfsim_marker', None):
+                c = c.__cause__ or c.__context__
+            extra['first_failed'] = True
+            extra['first_exc'] = None if c is not None else '%s: %s' % (type(e).__name__, str(e)[:200])
+            ds = c = None
+        gc.collect()
+        extra['mid_table'] = read_table(os.path.abspath('db.sqlite'), fields)
+        ds = flow.datastream()
+    else:
+        ds = DF.Flow(DF.load((desc, [iter(rows)]), strip=False), d).datastream()
     out = [list(r) for r in ds.res_iter][0]
     types = {f['name']: f['type'] for f in fields}
     down = [{k: (norm(v, types[k]) if k in types else v) for k, v in r.items()} for r in out]
@@ -66,7 +126,7 @@ def _dump(payload, sub):
             if type(o[k]) is not type(r.get(k)) or o[k] != r.get(k):
                 raw_changed.append([k, repr(o[k])[:60], repr(r.get(k))[:60]])
                 break
-    return {'down': down, 'raw_changed': raw_changed[:3], 'n': len(out)}
+    return dict(extra, down=down, raw_changed=raw_changed[:3], n=len(out))
 
 
 def read_table(path, fields):
@@ -98,7 +158,7 @@ class C20(Prop):
                    'a dump that the database rejects (primary-key conflict on append) is predicted by the model: the table is unchanged and the run raises']
     REAL_VS_STUB = {'real': ['dataflows dump_to_sql, tableschema-sql, SQLAlchemy, sqlite'], 'stub': ['none: the database file in the scratch directory is the durable state; each dump is a fresh process']}
     PROBES = ['mode-rewrite', 'mode-append', 'mode-update', 'update-first-dump-creates-table', 'update-keys-from-primary-key', 'update-keys-explicit', 'update-keys-configured-but-not-update-mode',
-              'repeated-key-in-stream', 'append-pk-conflict-predicted', 'array-object-columns', 'batch-1', 'bloom-off', 'updated-column', 'rewrite-changes-primary-key']
+              'repeated-key-in-stream', 'append-pk-conflict-predicted', 'array-object-columns', 'batch-1', 'bloom-off', 'updated-column', 'rewrite-changes-primary-key', 'retry-after-failed-attempt', 'failed-attempt-created-the-table', 'failed-attempt-changed-the-table', 'typed-values-inside-array-object-cells']
     TIERS = {'quick': dict(runs=500, wall=100, run_wall=300),
              'thorough': dict(runs=12000, wall=1700, run_wall=600)}
     SHRINK_FROZEN = ('fields',)
@@ -137,6 +197,8 @@ class C20(Prop):
                 op['update_keys'] = rng.choice([['k'], ['k', 'k2']])      # documented as "only applicable for the update mode": must be ignored
             if rng.random() < 0.5:
                 op['updated_column'] = 'upd'
+            if rows and rng.random() < 0.2:
+                op['fail_first'] = rng.randrange(len(rows))
             if mode == 'rewrite' and rng.random() < 0.4:
                 # the rewritten table is created from *this* dump's schema: another primary key (or none) than before
                 op['pk'] = rng.choice([None, ['k'], ['k', 'k2']])
@@ -162,10 +224,11 @@ class C20(Prop):
             return rng.random() < 0.5
         if t == 'date':
             return datetime.date(rng.choice([1999, 2024]), rng.randrange(1, 13), rng.randrange(1, 29))
+        nested = [datetime.date(2020, 1, 2), decimal.Decimal('2.5'), {'when': datetime.date(1999, 12, 31)}, [decimal.Decimal('0.25')]] if rng.random() < 0.4 else []
         if t == 'array':
-            return [rng.choice([1, 'x', None, 2.5]) for _ in range(rng.randrange(0, 3))]
+            return [rng.choice([1, 'x', None, 2.5] + nested) for _ in range(rng.randrange(0, 3))]
         if t == 'object':
-            return {rng.choice('ab'): rng.choice([1, 'x', None, [1]]) for _ in range(rng.randrange(0, 3))}
+            return {rng.choice('ab'): rng.choice([1, 'x', None, [1]] + nested) for _ in range(rng.randrange(0, 3))}
         return rng.randrange(10)
 
     def execute(self, sc, ctx):
@@ -180,6 +243,9 @@ class C20(Prop):
         table_pk = None
         if any(t in ('array', 'object') for t in types.values()):
             ctx.probe('array-object-columns')
+            ao = [i for i, n in enumerate(names) if types[n] in ('array', 'object')]
+            if any(k in json.dumps([row[i] for o in sc['ops'] for row in o['rows'] for i in ao if i < len(row)]) for k in ('"date"', '"d"')):
+                ctx.probe('typed-values-inside-array-object-cells')
         nontrivial = False
         base_pk = pk
         for oi, op in enumerate(sc['ops']):
@@ -205,7 +271,28 @@ class C20(Prop):
                 ctx.probe('update-keys-configured-but-not-update-mode')
             if mode == 'update' and not keys:
                 ctx.discard('update without keys')
-            label = 'dump#%d mode=%s keys=%r pk=%r batch=%r bloom=%r' % (oi, mode, op.get('update_keys'), pk, op.get('batch_size'), op.get('bloom'))
+            label = 'dump#%d mode=%s keys=%r pk=%r batch=%r bloom=%r%s' % (oi, mode, op.get('update_keys'), pk, op.get('batch_size'), op.get('bloom'),
+                                                                        '' if op.get('fail_first') is None else ' (retry of the same Flow object after its source failed at row %d)' % op['fail_first'])
+            # ---- real
+            res = ctx.subrun(_dump, {'op': op, 'fields': fields, 'pk': pk})        # pk: this dump's schema
+            got_table = read_table(db, fields)
+            if op.get('fail_first') is not None and res['status'] == 'ok':
+                ctx.probe('retry-after-failed-attempt')
+                v0 = res['value']
+                if not v0.get('first_failed'):
+                    ctx.violation('unexpected-error', 'swallowed', 'the source raised at row %d but the first attempt returned normally; %s' % (op['fail_first'], label))
+                if v0.get('first_exc'):
+                    ctx.violation('unexpected-error', 'first-attempt', 'the first attempt raised %s instead of the injected source error; %s' % (v0['first_exc'], label))
+                # the property says nothing about the table after a failed dump: the model continues from what the failed attempt left
+                mid = v0.get('mid_table')
+                if mid is not None and model is None:
+                    table_pk = pk
+                    ctx.probe('failed-attempt-created-the-table')
+                if mid is not None and model is not None and sorted(json.dumps(x, sort_keys=True) for x in mid) != sorted(json.dumps(x, sort_keys=True) for x in model):
+                    ctx.probe('failed-attempt-changed-the-table')
+                    if mode == 'rewrite':
+                        table_pk = pk
+                model = [dict(x) for x in mid] if mid is not None else None
             # ---- model
             expect_error = False
             if mode == 'rewrite' or model is None:
@@ -243,22 +330,19 @@ class C20(Prop):
                     ks = [tuple(r[k] for k in eff_pk) for r in new]
                     if len(set(ks)) != len(ks):
                         expect_error = True
-            # ---- real
-            r = ctx.subrun(_dump, {'op': op, 'fields': fields, 'pk': pk})        # pk: this dump's schema
-            got_table = read_table(db, fields)
             desc = '%s; history=%s' % (label, json.dumps([{k: v for k, v in o.items() if k != 'rows'} for o in sc['ops'][:oi + 1]])[:600])
             if expect_error:
-                if r['status'] == 'ok':
+                if res['status'] == 'ok':
                     ctx.violation('unexpected-error', 'no-error', 'the model predicts a primary-key conflict but the dump succeeded; %s' % desc)
                 # table unchanged (single transaction) - the property says nothing about the state after a failed dump; re-synchronise from the table
                 model = [dict(x) for x in got_table] if got_table is not None else None
                 if model is not None and table_pk is None:
                     table_pk = table_pk_new
                 continue
-            if r['status'] != 'ok':
-                cause = r['exc'].get('cause') or r['exc']
+            if res['status'] != 'ok':
+                cause = res['exc'].get('cause') or res['exc']
                 ctx.violation('unexpected-error', cause['type'], 'dump raised %s: %s; %s' % (cause['type'], cause['str'][:300], desc))
-            v = r['value']
+            v = res['value']
             table_pk = table_pk_new
             # table state, as a multiset
             if got_table is None:
